@@ -69,7 +69,9 @@ def run_case(case):
     import runcase
     import vworld
     rng = random.Random(case['wseed'])
-    prefix = 'vwh%d' % case['idx']
+    # (the shuffle walks the layers in the order of their names: half of the
+    # worlds have layers that sort after zope.testrunner.layer.UnitTests)
+    prefix = '%s%d' % (rng.choice(['vwh', 'zzh']), case['idx'])
     nl = rng.randint(0, 4)
     layers = gen.random_layer_graph(rng, nmax=nl, nmin=nl, p_hook=0.6) \
         if nl else []
@@ -230,7 +232,7 @@ def run_case(case):
                           block=blk['lines'][-6:])
                         continue
                     pat = 'UnitTests$' if L == 'UNIT' else \
-                        '%s\\.%s$' % (spec['layers_module'], L)
+                        vworld.layer_pattern(spec, L)
                     wr2 = common.run_world(
                         spec, None, {'shuffle_seed': m, 'layer': [pat]},
                         root=root)
@@ -272,7 +274,7 @@ def run_case(case):
         if len(disc) >= 2 and rng.random() < 0.3:
             sub = rng.sample(sorted(disc), rng.randint(1, len(disc) - 1))
             pats = ['UnitTests$' if s == 'UNIT' else
-                    '%s\\.%s$' % (spec['layers_module'], s) for s in sub]
+                    vworld.layer_pattern(spec, s) for s in sub]
             wl = common.run_world(spec, None, dict(sopts, layer=pats),
                                   extra_argv=['--list-tests'], root=root)
             listed = {model.short(ln) for ln, _tl in
@@ -303,10 +305,20 @@ def run_case(case):
         if len(disc) >= 2 and rng.random() < 0.6:
             sub = rng.sample(sorted(disc), rng.randint(1, len(disc) - 1))
             pats = ['UnitTests$' if s == 'UNIT' else
-                    '%s\\.%s$' % (spec['layers_module'], s) for s in sub]
+                    vworld.layer_pattern(spec, s) for s in sub]
             compare(common.run_world(spec, None, dict(sopts, layer=pats),
                                      root=root), 'layer-subset', only=set(sub))
             C('layer_subset_runs')
+        # the unit tests deselected with -f
+        if 'UNIT' in disc and len(disc) >= 2 and rng.random() < 0.5:
+            as_list = rng.random() < 0.5
+            compare(common.run_world(spec, None, dict(sopts, non_unit=True),
+                                     root=root,
+                                     extra_argv=['--list-tests']
+                                     if as_list else []),
+                    'list' if as_list else 'layer-subset',
+                    only=set(disc) - {'UNIT'})
+            C('non_unit_runs')
         # other interpreter (and another string-hash seed)
         if rng.random() < 0.3:
             py = rng.choice(PYTHONS)
